@@ -2,6 +2,11 @@
 
 package plenccodec
 
+import (
+	"sync/atomic"
+	"unsafe"
+)
+
 // Read-only views of unexported codec internals for the verification harness
 // (/verif). Compiled only with -tags verif.
 
@@ -28,3 +33,14 @@ func (c *StructCodec) VerifName() string { return c.rtype.Name() }
 
 // VerifKV returns the key and value codecs of a MapCodec.
 func (c *MapCodec) VerifKV() (Codec, Codec) { return c.keyCodec, c.valueCodec }
+
+// VerifComplete reports whether construction of the struct codec has finished
+// (its index table is built). A codec reachable from the shared registry must
+// always be complete.
+func (c *StructCodec) VerifComplete() bool { return c.fieldsByIndex != nil }
+
+// VerifTable returns the current intern table (read-only view).
+func (c *InternedStringCodec) VerifTable() map[string]string {
+	p := atomic.LoadPointer(&c.strings)
+	return *(*map[string]string)((unsafe.Pointer)(&p))
+}
